@@ -160,10 +160,14 @@ def gen_pair(r, max_chrom=3, max_genes=6, max_tes=30, chrom_names=None, min_chro
     else:
         base = None
         feats.add("offset_near_2^31")
+    # a third of the near-limit inputs reach the limit itself: every coordinate <= 2^31-1, but right windows run past it
+    at_limit = base is None and r.random() < 0.34
+    if at_limit:
+        feats.add("offset_at_2^31_windows_beyond")
     genes, tes = [], []
     for cn in names:
         span = r.choice([3000, 8000, 20000])
-        b = base if base is not None else MAXC - span - maxw - 2
+        b = base if base is not None else (MAXC - span if at_limit else MAXC - span - maxw - 2)
         g, t = gen_chromosome(r, cn, b, span, r.randint(1, max_genes), r.randint(0, max_tes), groups, maxw, feats)
         genes += g
         tes += t
@@ -215,7 +219,7 @@ def cross_order_only(r, tes, groups, feats):
     return out
 
 
-def gen_large_group(r, n=700):
+def gen_large_group(r, n=700, supers=("Gypsy",)):
     """one chromosome, one gene in the middle of one group of n elements: long elements with many short ones nested in them
     (so that a scan has far more hits than a block of a few dozen), chains, true gaps; a few elements of another order across them"""
     tes, pos = [], 1000
@@ -242,7 +246,8 @@ def gen_large_group(r, n=700):
     ngen = 24                                   # genes all along the group: wherever a block boundary might fall
     genes = [{"name": "big_g%d" % i, "chrom": "ChrBig", "start": lo_ + (hi_ - lo_) * (i + 1) // (ngen + 1), "stop": lo_ + (hi_ - lo_) * (i + 1) // (ngen + 1) + 450,
               "strand": "+-."[i % 3]} for i in range(ngen)]
-    rows = [{"chrom": "ChrBig", "start": a, "stop": b, "order": "LTR", "superfam": "Gypsy", "strand": "+"} for a, b in tes]
+    rows = [{"chrom": "ChrBig", "start": a, "stop": b, "order": "LTR", "superfam": supers[i % len(supers)] if len(supers) > 1 else supers[0], "strand": "+"}
+            for i, (a, b) in enumerate(tes)]
     for i in range(12):
         a = mid - 3000 + 600 * i
         rows.append({"chrom": "ChrBig", "start": a, "stop": a + 350, "order": "DNA", "superfam": "hAT", "strand": "-"})
